@@ -67,7 +67,9 @@ CRITERIA = {
                                '"Hosford 1972" {a : 12, eigen_solver : "Jacobi"}']),
     "Barlat": (True, False, ['"Barlat" {a : 8, l1 : %s, l2 : %s}' % (_BARLAT_L1, _BARLAT_L2),
                              '"Barlat" {a : 6, l1 : %s, l2 : %s, eigen_solver : "Jacobi"}' % (_BARLAT_L2, _BARLAT_L1)]),
-    "Drucker1949": (False, False, ['"Drucker 1949" {c : 1.285}', '"Drucker 1949" {c : -1.5}', '"Drucker 1949" {c : 1.75}']),
+    # c = 1 only in the pool: the second derivative is wrong for c != 1 (known finding, see Drucker1949_probe)
+    "Drucker1949": (False, False, ['"Drucker 1949" {c : 1}']),
+    "Drucker1949_probe": (False, False, ['"Drucker 1949" {c : 1.285}']),
     "Cazacu2001": (True, False, ['"Cazacu 2001" {a : %s, b : %s, c : 1.285}' % (_CAZ_A, _CAZ_B)]),
     "IsoCazacu2004": (False, False, ['"Isotropic Cazacu 2004" {c : -1.056}', '"Isotropic Cazacu 2004" {c : 0.8}']),
     "OrthoCazacu2004": (True, False, ['"Orthotropic Cazacu 2004" {a : %s, b : %s, c : 1.285}' % (_CAZ_A, _CAZ_B),
@@ -118,7 +120,9 @@ KIN = {
     "AF": ['"Armstrong-Frederick" {C : 60e9, D : 400}', '"Armstrong-Frederick" {C : 15e9, D : 60}'],
     "BC": ['"Burlet-Cailletaud" {C : 50e9, D : 300, eta : 0.4}', '"Burlet-Cailletaud" {C : 25e9, D : 100, eta : 0}'],
     "Chaboche2012": ['"Chaboche 2012" {C : 50e9, D : 300, m : 2, w : 0.6}',
-                     '"Chaboche 2012" {C : 25e9, D : 500, m : 3, w : 0.3, Phi_inf : 0.5, b : 100}'],
+                     '"Chaboche 2012" {C : 25e9, D : 500, m : 3, w : 0.3}'],
+    # Phi_inf / b options: the emitted code does not compile (known finding)
+    "Chaboche2012_Phi": ['"Chaboche 2012" {C : 25e9, D : 500, m : 3, w : 0.3, Phi_inf : 0.5, b : 100}'],
     "DRS": ['"DRS" {C : 40e9, D : 200, f : 1e-6, m : 3, a0 : 1e-3, Ec : {0.33, 0.33, 0.33, 1, 1, 1},\n'
             '      Rs : {0.33, 0.63, 0.33, 1, 1, 1}, Rd : {0.33, 0.33, 0.33, 1, 1, 1}}'],
 }
@@ -126,7 +130,10 @@ KIN_ORTHO = {"DRS"}
 KIN_CHOICES = {
     "none": [], "Prager": ["Prager"], "AF": ["AF"], "BC": ["BC"], "Chaboche2012": ["Chaboche2012"], "DRS": ["DRS"],
     "AF+AF": ["AF", "AF"], "Prager+AF": ["Prager", "AF"], "BC+Chaboche2012": ["BC", "Chaboche2012"],
+    "Chaboche2012_Phi": ["Chaboche2012_Phi"],
 }
+# values only used by the probes of the known findings, never drawn for the pool
+NOT_IN_POOL = {"crit:Drucker1949_probe", "kin:Chaboche2012_Phi", "nuc:CN_strain", "palgo:staggered"}
 
 # ------------------------------------------------------------------ flows
 FLOWS = {
@@ -190,7 +197,8 @@ def valid(cfg):
         if is_porous(cfg):
             return False
         for fl in cfg["flows"]:
-            if fl["flow"] == "UserDefinedVP" or any(x.startswith(("SRS", "UserDefined")) for x in ISO_CHOICES[fl["iso"]]):
+            if fl["flow"] in ("UserDefinedVP", "HarmonicSum") or \
+                    any(x.startswith(("SRS", "UserDefined", "Data")) for x in ISO_CHOICES[fl["iso"]]):
                 return False
     return True
 
